@@ -273,6 +273,9 @@ func finishCheck(prop, tierName string, tier, seed int, jobs []*job, tmp string,
 					j.detail = "native run left the path: " + o.skipped
 				}
 				for k, want := range v.Obs {
+					if v.Approx {
+						break // over-approximated path: only reachability is compared
+					}
 					if got, ok := o.obs[k]; !ok || got != want {
 						j.verdict = "witness-mismatch"
 						j.detail += fmt.Sprintf(" obs %s: engine=%s native=%s;", k, want, got)
@@ -342,6 +345,10 @@ func finishCheck(prop, tierName string, tier, seed int, jobs []*job, tmp string,
 			}
 		case "unreproduced":
 			unrepro++
+			if j.v.Approx {
+				fmt.Fprintf(os.Stderr, "INCONCLUSIVE: candidate for %s (%s) on an over-approximated path did not reproduce natively\n", j.v.Expect, j.v.Entry)
+				continue
+			}
 			fmt.Fprintf(os.Stderr, "ENGINE FAULT: counterexample candidate for %s (%s) did not reproduce natively: %s inputs=%s\n", j.v.Expect, j.v.Entry, j.detail, compactInputs(j.v))
 		}
 	}
